@@ -7,7 +7,7 @@ usage: seed_matrix.py [seed ...]        (default: every directory under /verif/s
 Refuses to start when /repo has uncommitted changes or another vcheck is running."""
 import json, os, re, subprocess, sys, time
 
-V = '/verif'
+V = os.environ.get('VERIF_DIR', '/verif')
 ENV = dict(os.environ, GOFLAGS='-mod=mod', GOPROXY='off', GOSUMDB='off', GOTOOLCHAIN='local')
 # extra properties whose checks are also run for a seed (the harness that is sensitive to it is tagged there)
 EXTRA = {}
@@ -36,7 +36,8 @@ def main():
         meta = json.load(open(f'{d}/meta.json')) if os.path.exists(f'{d}/meta.json') else {}
         pre = ''
         if overlay:
-            r = sh(f'sh {V}/tools/seed_overlay.sh {d}/patch.diff')
+            ovdir = f'/tmp/seedov.{os.getpid()}.{s}'
+            r = sh(f'sh {V}/tools/seed_overlay.sh {d}/patch.diff {ovdir}')
             if r.returncode != 0 or not r.stdout.strip():
                 print(s, 'patch does not apply to a copy', r.stderr.strip())
                 continue
@@ -63,7 +64,7 @@ def main():
             if not overlay:
                 sh('git -C /repo checkout -- .')
             else:
-                sh('rm -rf /tmp/seedov.*')
+                sh('rm -rf ' + ovdir)
         caught = any(x['exit'] == 1 and x['violations'] for x in results)
         meta['property'] = prop
         rp = f'{d}/README.md'
